@@ -115,7 +115,7 @@ fn v4_stream(ctx: &Ctx, idx: u64) -> Report {
     }
     report.count("oracle_selftests_passed");
     let mut rng = ChaCha8Rng::seed_from_u64(sseed(ctx, "v4", idx));
-    let draws = ctx.tier.pick(2, 16);
+    let draws = ctx.tier.pick(8, 64);
     let classes = 1u32 << 20;
     let per = classes as u64 / V4_SHARDS;
     let mut pairs = 0u64;
@@ -156,7 +156,7 @@ fn v6_stream(ctx: &Ctx, idx: u64) -> Report {
         return report;
     }
     let mut rng = ChaCha8Rng::seed_from_u64(sseed(ctx, "v6", idx));
-    let n = ctx.tier.pick(8_000u64, 640_000);
+    let n = ctx.tier.pick(100_000u64, 2_000_000);
     let mut seen = std::collections::HashSet::new();
     let info = || replay_info("C20", "v6", ctx, idx);
     for i in 0..n {
@@ -208,7 +208,7 @@ pub fn check(tier: Tier) -> Check {
         id: "C20",
         level: "exploration",
         rule: "IPv4: every one of the 2^20 combinations of mask-relevant address bits (0x030f3fff), \
-               remaining bits random, 2 (quick) / 16 (thorough) calls each; IPv6: random and \
+               remaining bits random, 8 (quick) / 64 (thorough) calls each; IPv6: random and \
                structured /64 prefixes. A case is (masked address, r) where r is the 3 random bits \
                the implementation drew; distinct_nontrivial counts distinct such pairs observed \
                (IPv6 pairs counted up to 100k per shard).",
@@ -223,7 +223,7 @@ pub fn check(tier: Tier) -> Check {
         ],
         require: vec![
             ("v4_classes_covered", 1 << 20),
-            ("v4_class_r_pairs_observed", tier.pick(1_500_000, 5_000_000)),
+            ("v4_class_r_pairs_observed", tier.pick(4_000_000, 8_000_000)),
             ("oracle_selftests_passed", V4_SHARDS),
         ],
         exhaustive: false,
